@@ -13,11 +13,15 @@
 (***************************************************************************)
 EXTENDS Decl
 
-IntV(v) == [t |-> "int", v |-> v]
-BytesV(b) == [t |-> "bytes", v |-> b]
-ListV(s) == [t |-> "list", v |-> s]
+IntV(v) == [t |-> "int", i |-> v]
+BytesV(b) == [t |-> "bytes", b |-> b]
+ListV(s) == [t |-> "list", l |-> s]
 PktV(cls, vals) == [t |-> "pkt", cls |-> cls, vals |-> vals]
 NoneV == [t |-> "none"]
+\* payload of an int / bytes / list value.  The payload field is named differently per kind on purpose:
+\* TLC compares record fields in the order its string table happens to have, so two values of different
+\* kinds must already differ in their field NAMES or comparing them can be an evaluation error.
+PL(x) == CASE x.t = "int" -> x.i [] x.t = "bytes" -> x.b [] OTHER -> x.l
 BoolV(b) == IntV(IF b THEN 1 ELSE 0)
 
 Ok(v) == [ok |-> TRUE, v |-> v]
@@ -29,9 +33,9 @@ SetVal(vals, n, v) ==
     IF HasVal(vals, n) THEN [i \in 1..Len(vals) |-> IF vals[i].n = n THEN [n |-> n, v |-> v] ELSE vals[i]]
     ELSE Append(vals, [n |-> n, v |-> v])
 
-Truth(v) == CASE v.t = "int" -> v.v # 0
-              [] v.t = "bytes" -> v.v # <<>>
-              [] v.t = "list" -> v.v # <<>>
+Truth(v) == CASE v.t = "int" -> v.i # 0
+              [] v.t = "bytes" -> v.b # <<>>
+              [] v.t = "list" -> v.l # <<>>
               [] v.t = "none" -> FALSE
               [] OTHER -> TRUE
 
@@ -72,25 +76,25 @@ Eval(e, env) ==
       [] e.e = "un" ->
             LET a == Eval(e.a, env) IN
             IF ~a.ok THEN Raise
-            ELSE CASE e.op = "neg" -> IF a.v.t = "int" THEN Ok(IntV(0 - a.v.v)) ELSE Raise
-                   [] e.op = "inv" -> IF a.v.t = "int" THEN Ok(IntV((0 - a.v.v) - 1)) ELSE Raise
+            ELSE CASE e.op = "neg" -> IF a.v.t = "int" THEN Ok(IntV(0 - a.v.i)) ELSE Raise
+                   [] e.op = "inv" -> IF a.v.t = "int" THEN Ok(IntV((0 - a.v.i) - 1)) ELSE Raise
                    [] e.op = "truth" -> Ok(BoolV(Truth(a.v)))
                    [] e.op = "not" -> Ok(BoolV(~Truth(a.v)))
-                   [] e.op = "len" -> IF a.v.t \in {"bytes", "list"} THEN Ok(IntV(Len(a.v.v))) ELSE Raise
+                   [] e.op = "len" -> IF a.v.t \in {"bytes", "list"} THEN Ok(IntV(Len(PL(a.v)))) ELSE Raise
                    [] OTHER -> Raise
       [] e.e = "bin" ->
             LET a == Eval(e.l, env) b == Eval(e.r, env) IN
             IF ~a.ok \/ ~b.ok THEN Raise
-            ELSE IF a.v.t = "int" /\ b.v.t = "int" THEN IntBin(e.op, a.v.v, b.v.v)
+            ELSE IF a.v.t = "int" /\ b.v.t = "int" THEN IntBin(e.op, a.v.i, b.v.i)
             ELSE IF e.op = "eq" THEN Ok(BoolV(a.v = b.v))
             ELSE IF e.op = "ne" THEN Ok(BoolV(a.v # b.v))
             ELSE Raise
       [] e.e = "idx" ->
             LET a == Eval(e.a, env) i == Eval(e.i, env) IN
             IF ~a.ok \/ ~i.ok \/ i.v.t # "int" \/ a.v.t \notin {"bytes", "list"} THEN Raise
-            ELSE LET p == PyItem(a.v.v, i.v.v) IN
+            ELSE LET p == PyItem(PL(a.v), i.v.i) IN
                  IF ~p.ok THEN Raise
-                 ELSE IF a.v.t = "bytes" THEN Ok(IntV(a.v.v[p.at])) ELSE Ok(a.v.v[p.at])
+                 ELSE IF a.v.t = "bytes" THEN Ok(IntV(a.v.b[p.at])) ELSE Ok(a.v.l[p.at])
       [] e.e = "attr" ->
             LET a == Eval(e.a, env) IN
             IF ~a.ok \/ a.v.t # "pkt" THEN Raise
